@@ -65,6 +65,8 @@ type R struct {
 	// OnStuck, if set, is called (on the scheduler's goroutine, everything else blocked) when the run
 	// got stuck with the main task not finished.
 	OnStuck func(report []string)
+	// PostRun, if set, runs after the bubble has ended (outside the simulator), e.g. for porcupine.
+	PostRun func()
 	// Ops counts harness-level operations (container worlds use it as "steps").
 	Ops int
 	// States lets container worlds report distinct abstract states reached.
@@ -229,6 +231,9 @@ func RunOne(w *World, tape *sim.Tape, focus string, tier string, trace bool) (re
 		} else if res.LeakPanic != "" {
 			res.Verdict = "harness-error"
 		}
+	}
+	if r.PostRun != nil && r.viol == nil {
+		r.PostRun()
 	}
 	res.Viol = r.viol
 	res.Hash = r.hist
